@@ -255,15 +255,15 @@ func genCleanScenarios(g *fgen, n int, apis []string, modes []string, opt cleanG
 }
 
 type cleanGenOpts struct {
-	maxTests, maxCalls        int
-	change, drop, add         float64
-	staleProb, decoyProb      float64
-	sortProb, againProb       float64
-	counts                    bool
+	maxTests, maxCalls         int
+	change, drop, add          float64
+	staleProb, decoyProb       float64
+	sortProb, againProb        float64
+	counts                     bool
 	skipProb, parProb, badProb float64
-	moveProb                  float64
-	oddDirs                   bool // some calls go through Configs whose Dir is not clean / holds glob characters
-	ciReplay                  bool // append a read-only CI run of the same program (no Clean)
+	moveProb                   float64
+	oddDirs                    bool // some calls go through Configs whose Dir is not clean / holds glob characters
+	ciReplay                   bool // append a read-only CI run of the same program (no Clean)
 }
 
 func rootNames(p *rprogram) []string {
